@@ -220,9 +220,15 @@ class ASTString(ASTTemplate):
 
     def visit_DefIdentifier(self, node: AST.DefIdentifier) -> str:
         if node.was_quoted:
-            return f"'{node.value}'"
-        # written bare in the script: a code item may be a number (1100), which needs no quotes
-        return RESERVED_WORDS.get(node.value, node.value)
+            text = f"'{node.value}'"
+        else:
+            # written bare in the script: a code item may be a number (1100), which needs no quotes
+            text = RESERVED_WORDS.get(node.value, node.value)
+        # a code item of a hierarchical rule may carry a condition: FR [Time >= cast("1958-01-01", date)]
+        condition = getattr(node, "_right_condition", None)
+        if condition is not None:
+            text += f" [{self.visit(condition)}]"
+        return text
 
     def visit_DPRule(self, node: AST.DPRule) -> str:
         if self.pretty:
